@@ -61,3 +61,31 @@ pub fn run(infile: &str, outfile: &str) {
         writeln!(out, "{}", json!({"tagged": tag(&v["doc"]), "result": result})).unwrap();
     }
 }
+
+/// Runner for the simple-format reader: the real `io::simple::read` on each document, its complete
+/// result dumped (indices, names, sizes, instructor lists, float bit patterns, flags, hidden names,
+/// choices), followed by what `io::check_data_consistency` says about it.
+pub fn run_simple(infile: &str, outfile: &str) {
+    let inp = std::io::BufReader::new(std::fs::File::open(infile).unwrap());
+    let mut out = std::io::BufWriter::new(std::fs::File::create(outfile).unwrap());
+    for line in inp.lines() {
+        let line = line.unwrap();
+        let v: Value = serde_json::from_str(&line).unwrap();
+        let doc_text = serde_json::to_string(&v["doc"]).unwrap();
+        let res = crate::common::catch(|| cdecao::io::simple::read(doc_text.as_bytes()));
+        let result = match res {
+            Err(p) => json!({"panic": p}),
+            Ok(Err(e)) => json!({ "err": e }),
+            Ok(Ok((parts, courses))) => {
+                let consistent = crate::common::catch(|| cdecao::io::check_data_consistency(&parts, &courses).is_ok());
+                json!({"ok": {
+                    "courses": courses.iter().map(|c| { let d = verif::dump_course(c);
+                        json!([d.index, d.name, d.num_min, d.num_max, d.instructors, d.room_factor.to_bits(), d.room_offset.to_bits(), d.fixed_course, d.hidden_participant_names]) }).collect::<Vec<_>>(),
+                    "parts": parts.iter().map(|p| { let d = verif::dump_participant(p);
+                        json!([d.index, d.name, d.choices.iter().map(|(c, pen)| json!([c, pen])).collect::<Vec<_>>()]) }).collect::<Vec<_>>(),
+                    "consistent": consistent.unwrap_or(false)}})
+            }
+        };
+        writeln!(out, "{}", json!({"tagged": tag(&v["doc"]), "result": result})).unwrap();
+    }
+}
